@@ -26,7 +26,7 @@ struct Sched {
    std::map<const void *, MState> mutexes; std::set<const void *> ignoredMutexes; std::set<const volatile void *> watched; bool watchAll;
    std::map<const void *, int> byObj; pthread_mutex_t mapLock;
    std::vector<unsigned char> prefix; std::vector<unsigned char> nalt, taken; std::vector<std::vector<unsigned char> > cost;
-   unsigned long points; unsigned maxPoints; bool yieldOnUnlock; int reportFd; bool framed; bool trace;
+   unsigned long points; unsigned maxPoints; bool yieldOnUnlock; int reportFd; bool framed; bool trace; bool warm;
    std::string failKey, failMsg, observation, notes; bool failed;
    std::vector<std::thread *> freeThreads;  // free-run mode
    std::mutex freeLock;
@@ -43,15 +43,19 @@ static const char * KindName(int k) { static const char * n[] = {"op", "lock", "
 // executions per process) the text is framed; the process exits only when the execution cannot be unwound (parked threads).
 static void Report(const char * status, bool terminal)
 {
+   // warm-up execution (default schedule, first execution of a process): a clean end is silent; a failure is reported as what it is --
+   // the default schedule of this configuration already fails in a fresh process -- and ends the process
+   if (S->warm && !terminal && strcmp(status, "OK") == 0) return;
    std::string o = std::string("STATUS ") + status + "\n";
+   if (S->warm) o = "WARMFAIL\n" + o;
    o += "KEY " + S->failKey + "\nMSG " + verif::Hex(S->failMsg) + "\nOBS " + verif::Hex(S->observation) + "\nNOTES " + verif::Hex(S->notes) + "\n";
    o += verif::Fmt("POINTS %lu\n", S->points);
    o += "CHOICES";
-   for (size_t i = 0; i < S->nalt.size(); i++) { o += verif::Fmt(" %d:%d:", (int)S->nalt[i], (int)S->taken[i]); for (size_t j = 0; j < S->cost[i].size(); j++) o += (char)('0' + S->cost[i][j]); }
+   if (!S->warm) for (size_t i = 0; i < S->nalt.size(); i++) { o += verif::Fmt(" %d:%d:", (int)S->nalt[i], (int)S->taken[i]); for (size_t j = 0; j < S->cost[i].size(); j++) o += (char)('0' + S->cost[i][j]); }
    o += "\nEND\n";
    if (S->framed) { uint32_t len = (uint32_t)o.size(); std::string h((const char *)&len, sizeof(len)); o = h + o; }
    size_t off = 0; while (off < o.size()) { ssize_t w = write(S->reportFd, o.data() + off, o.size() - off); if (w <= 0) break; off += (size_t)w; }
-   if (terminal || !S->framed) _exit(0);
+   if (terminal || !S->framed || S->warm) _exit(0);
 }
 
 static std::string DescribeThreads()
@@ -245,19 +249,18 @@ static void InitSched(bool active)
 {
    // one scheduler object per process, re-initialised for every execution and never freed (an exiting thread may still be inside its last futex call)
    static Sched * theSched = NULL; if (theSched == NULL) { theSched = new Sched(); pthread_mutex_init(&theSched->mapLock, NULL); }
-   S = theSched; S->active = active; S->nthr = 0; S->current = 0; S->watchAll = false; S->points = 0; S->maxPoints = 20000; S->yieldOnUnlock = false; S->reportFd = -1; S->failed = false; S->framed = false; S->trace = getenv("SCHEDX_TRACE") != NULL;
+   S = theSched; S->active = active; S->nthr = 0; S->current = 0; S->watchAll = false; S->points = 0; S->maxPoints = 20000; S->yieldOnUnlock = false; S->reportFd = -1; S->failed = false; S->framed = false; S->warm = false; S->trace = getenv("SCHEDX_TRACE") != NULL;
    S->mutexes.clear(); S->ignoredMutexes.clear(); S->watched.clear(); S->byObj.clear(); S->prefix.clear(); S->nalt.clear(); S->taken.clear(); S->cost.clear();
    S->failKey.clear(); S->failMsg.clear(); S->observation.clear(); S->notes.clear(); S->freeThreads.clear();
    memset(S->thr, 0, sizeof(S->thr));
 }
 
-static bool g_ignoreFreeRunFailures = false;
 void FreeRun(const std::function<void()> & body, int iterations)
 {
    for (int i = 0; i < iterations; i++) {
       InitSched(false); body();
       for (size_t k = 0; k < S->freeThreads.size(); k++) { if (S->freeThreads[k]->joinable()) S->freeThreads[k]->join(); delete S->freeThreads[k]; }
-      if (S->failed && !g_ignoreFreeRunFailures) { fprintf(stderr, "FREERUN-VIOLATION %s %s\n", S->failKey.c_str(), S->failMsg.c_str()); fflush(stderr); _exit(1); }
+      if (S->failed) { fprintf(stderr, "FREERUN-VIOLATION %s %s\n", S->failKey.c_str(), S->failMsg.c_str()); fflush(stderr); _exit(1); }
    }
 }
 
@@ -274,7 +277,10 @@ void FreeRunPart(const std::string & partName, const BodyFactory & factory, cons
       for (size_t i = 0; i < configs.size(); i++) { std::function<void()> b = factory(configs[i]); FreeRun(b, iterations); }
       exit(0);   // normal exit so that the sanitizer's at-exit code sets its exit status
    }
-   int st = 0; waitpid(pid, &st, 0);
+   // a free run normally takes a few seconds; one that has not finished after kFreeRunHangS of real time is reported as a hang (deadlock or lost
+   // wake-up with real threads) instead of blocking the check
+   const double kFreeRunHangS = 300.0; bool hung = false;
+   int st = 0; while (waitpid(pid, &st, WNOHANG) == 0) { if (verif::NowS() - t0 > kFreeRunHangS) { hung = true; kill(pid, SIGKILL); waitpid(pid, &st, 0); break; } usleep(20000); }
    verif::Part p; p.name = partName; p.transitions = p.evaluations = (uint64_t)configs.size() * (uint64_t)iterations; p.states = configs.size(); p.distinct_outcomes = configs.size(); p.bound_completed = -1; p.exhaustive = true;
    p.rule = verif::Fmt("race-detector pass (NOT the deciding enumeration): the same thread bodies run free (no scheduler, real concurrency) %d times for each of %u configurations in a ThreadSanitizer build; any data-race report or failed assertion is a violation", iterations, (unsigned)configs.size());
    for (size_t i = 0; i < configs.size() && i < 3; i++) p.samples.push_back("{\"config\": " + verif::JStr(configs[(i * 7 + (size_t)args.seed) % configs.size()]) + "}");
@@ -282,6 +288,7 @@ void FreeRunPart(const std::string & partName, const BodyFactory & factory, cons
       FILE * f = fopen(ef.c_str(), "r"); std::string t; if (f) { char b[4096]; size_t r; while ((r = fread(b, 1, sizeof(b), f)) > 0 && t.size() < 200000) t.append(b, r); fclose(f); }
       std::string key = "freerun:exit" + verif::Fmt("%d", WIFEXITED(st) ? WEXITSTATUS(st) : -WTERMSIG(st)), msg = "free run failed";
       size_t su = t.find("SUMMARY: ThreadSanitizer:"); if (su != std::string::npos) { size_t e = t.find('\n', su); msg = t.substr(su, e - su); size_t in = msg.rfind(" in "); key = "tsan:" + (in == std::string::npos ? std::string("report") : msg.substr(in + 4)); }
+      if (hung) { key = "freerun:hang"; msg = verif::Fmt("free run still not finished after %.0f s of real time (normally a few seconds): threads are blocked for good", kFreeRunHangS); }
       size_t fv = t.find("FREERUN-VIOLATION "); if (fv != std::string::npos) { size_t e = t.find('\n', fv); msg = t.substr(fv + 18, e - fv - 18); key = "freerun:" + msg.substr(0, msg.find(' ')); }
       std::string body = "{\"harness\": " + verif::JStr(res.harness) + ", \"part\": " + verif::JStr(partName) + ", \"observed\": " + verif::JStr(msg) + ", \"log_head\": " + verif::JStr(t.substr(0, 3000)) + "}";
       res.AddViolation(key, partName + ": " + msg, res.WriteReplay(args, partName, body));
@@ -290,22 +297,17 @@ void FreeRunPart(const std::string & partName, const BodyFactory & factory, cons
    p.wall_s = verif::NowS() - t0; res.parts.push_back(p);
 }
 
-// Every process that runs scheduled executions first runs the body ONCE free (no scheduler): muscle initialises some process-wide
-// objects lazily under a Mutex on first use (one extra lock point in the first execution only), and executions must not depend on
-// whether they are the first one in their process.  Replays and explorer workers do the same, so all modes agree.
-static void WarmUp(const std::function<void()> & body)
-{
-   // The free run uses real concurrency, so on a defective tree it can hang or crash by itself: a 5 s real-time alarm ends the process, and the
-   // caller (which has not yet seen this process's READY marker) simply starts over with a fresh process.
-   signal(SIGALRM, SIG_DFL); alarm(5);
-   g_ignoreFreeRunFailures = true; FreeRun(body, 1); g_ignoreFreeRunFailures = false;
-   alarm(0);
-}   // only its side effect on process-wide state matters; its verdict is ignored
-
+// Every process that runs scheduled executions first runs the body ONCE as a warm-up: muscle initialises some process-wide objects lazily
+// under a Mutex on first use (one extra lock point in the first execution of a process only), and executions must not depend on whether
+// they are the first one in their process.  The warm-up is the DEFAULT schedule under the scheduler (deterministic -- an earlier version
+// used a free run, which on a defective tree could hang or crash by itself); its outcome is discarded unless it fails, in which case the
+// failure is reported as "the default schedule already fails in a fresh process" (WARMFAIL).  Replays and explorer workers do the same.
 // ---------------------------------------------------------------- one execution (child side)
-static void ChildMain(const std::function<void()> & body, const std::vector<unsigned char> & choices, const Options & opt, int reportFd, bool framed)
+static void ChildMain(const std::function<void()> & body, const std::vector<unsigned char> & choices, const Options & opt, int reportFd, bool framed, bool warm);
+static void WarmUp(const std::function<void()> & body, const Options & opt, int reportFd, bool framed) { ChildMain(body, std::vector<unsigned char>(), opt, reportFd, framed, true); }
+static void ChildMain(const std::function<void()> & body, const std::vector<unsigned char> & choices, const Options & opt, int reportFd, bool framed, bool warm)
 {
-   InitSched(true); S->prefix = choices; S->maxPoints = opt.maxPoints; S->yieldOnUnlock = opt.yieldOnUnlock; S->reportFd = reportFd; S->framed = framed;
+   InitSched(true); S->warm = warm; S->prefix = choices; S->maxPoints = opt.maxPoints; S->yieldOnUnlock = opt.yieldOnUnlock; S->reportFd = reportFd; S->framed = framed;
    int id = AllocThread(NULL); S->thr[id].pendKind = PK_NONE; t_tid = id;   // the body runs as thread 0 and starts with the token
    GetMuscleVerifHooksRef() = &g_hooks;
    body();
@@ -327,7 +329,8 @@ static void ParseOutcome(const std::string & text, Outcome & o)
    while (pos < text.size()) {
       size_t e = text.find('\n', pos); if (e == std::string::npos) e = text.size();
       std::string line = text.substr(pos, e - pos); pos = e + 1;
-      if (line.compare(0, 7, "STATUS ") == 0) o.status = line.substr(7);
+      if (line == "WARMFAIL") o.notes += "[fails already in the default schedule of a fresh process]";
+      else if (line.compare(0, 7, "STATUS ") == 0) o.status = line.substr(7);
       else if (line.compare(0, 4, "KEY ") == 0) o.key = line.substr(4);
       else if (line.compare(0, 4, "MSG ") == 0) verif::UnHex(line.substr(4), o.msg);
       else if (line.compare(0, 4, "OBS ") == 0) verif::UnHex(line.substr(4), o.observation);
@@ -358,9 +361,9 @@ static void Launch(Child & c, const std::function<void()> & body, const std::vec
    if (pid < 0) { perror("fork"); exit(3); }
    if (pid == 0) {
       close(p[0]); if (!getenv("SCHEDX_TRACE")) { int ef = open(c.errfile.c_str(), O_WRONLY | O_CREAT | O_TRUNC, 0644); if (ef >= 0) { dup2(ef, 2); close(ef); } }
-      WarmUp(body);
+      WarmUp(body, opt, p[1], false);
       { const char * rdy = "READY\n"; if (write(p[1], rdy, 6) != 6) _exit(4); }
-      ChildMain(body, prefix, opt, p[1], false); _exit(0);
+      ChildMain(body, prefix, opt, p[1], false, false); _exit(0);
    }
    close(p[1]); c.pid = pid; c.fd = p[0]; c.buf.clear(); c.prefix = prefix; c.t0 = verif::NowS();
 }
@@ -397,7 +400,7 @@ Outcome RunOne(const std::function<void()> & body, const std::vector<unsigned ch
          if (r > 0) { char b[65536]; ssize_t n = read(c.fd, b, sizeof(b)); if (n > 0) c.buf.append(b, (size_t)n); else if (n == 0) break; else if (errno != EINTR && errno != EAGAIN) break; }
          if (verif::NowS() - c.t0 > opt.execTimeoutS * 3) { kill(c.pid, SIGKILL); killed = true; break; }
       }
-      const bool ready = c.buf.find("READY\n") != std::string::npos;
+      const bool ready = c.buf.find("READY\n") != std::string::npos || c.buf.find("WARMFAIL\n") != std::string::npos;
       o = Outcome(); Finish(c, o, killed);
       if (ready) return o;   // otherwise the process ended inside its free warm-up run: not a statement about this schedule, try again
    }
@@ -423,12 +426,12 @@ static void WorkerLoop(int cmdFd, int respFd, int slot)
       if (hdr[1] && !ReadAll(cmdFd, &prefix[0], hdr[1])) _exit(0);
       Options opt = g_poolOpt; opt.bound = (int)hdr[2];
       std::function<void()> body = g_factory(cfg);
-      if (warmed.insert(cfg).second) WarmUp(body);
+      if (warmed.insert(cfg).second) WarmUp(body, opt, respFd, true);
       { uint32_t len = 6; WriteAll(respFd, &len, sizeof(len)); WriteAll(respFd, "READY\n", 6); }
       // The execution runs IN this process (a fork per execution costs ~25 ms of kernel time under ASan).  Executions that end with
       // every thread finished (OK / VIOLATION) return here; anything else (deadlock, livelock, divergence, crash) ends the process
       // after reporting and the parent starts a fresh worker.  Failing executions are re-confirmed by the parent in fresh processes.
-      ChildMain(body, prefix, opt, respFd, true);
+      ChildMain(body, prefix, opt, respFd, true, false);
    }
 }
 
@@ -461,7 +464,7 @@ void Explore(const std::string & partName, const std::string & configArgs, const
    std::vector<std::vector<unsigned char> > work; work.push_back(std::vector<unsigned char>());
    unsigned long executions = 0, totalPoints = 0, totalChoicePoints = 0; unsigned long perBound[8] = {0, 0, 0, 0, 0, 0, 0, 0};
    std::set<verif::Hash128> observations; std::map<std::string, unsigned long> statusCounts; std::map<std::string, int> perKey; std::map<std::string, unsigned long> keyCounts;
-   std::vector<std::string> notes; bool capped = false; std::string cap; unsigned long maxPointsSeen = 0; size_t nbusy = 0; unsigned long failingExecutions = 0; std::map<std::string, int> retries; unsigned warmupDeaths = 0;
+   std::vector<std::string> notes; bool capped = false; std::string cap; unsigned long maxPointsSeen = 0; size_t nbusy = 0; unsigned long failingExecutions = 0; std::map<std::string, int> retries; unsigned warmupDeaths = 0; bool warmFailed = false;
    std::vector<std::string> samples;
    while (!work.empty() || nbusy > 0) {
       for (size_t w = 0; w < g_pool.size() && !work.empty(); w++) if (!g_pool[w].busy) {
@@ -482,7 +485,8 @@ void Explore(const std::string & partName, const std::string & configArgs, const
          if (pf[k].revents) {
             uint32_t len = 0; std::string text; bool ok = ReadAll(wk.respFd, &len, sizeof(len)); if (ok && len) { text.resize(len); ok = ReadAll(wk.respFd, &text[0], len); }
             if (ok && text == "READY\n") { wk.ready = true; wk.t0 = verif::NowS(); continue; }   // warm-up (if any) is over, the scheduled execution starts now
-            if (ok) { ParseOutcome(text, o); have = true; if (o.status != "OK") { ReapWorker(wi, NULL); SpawnWorker(wi); } }   // terminal status: that worker has exited
+            if (ok) { ParseOutcome(text, o); have = true; if (o.status != "OK") { ReapWorker(wi, NULL); SpawnWorker(wi); }   // terminal status: that worker has exited
+                      if (text.compare(0, 9, "WARMFAIL\n") == 0) { warmFailed = true; } }
             else if (!wk.ready && ++warmupDeaths <= 200) {
                // the worker died before its READY marker, i.e. inside its free warm-up run (real concurrency): says nothing about this schedule => run it again elsewhere
                ReapWorker(wi, NULL); SpawnWorker(wi); work.push_back(g_pool[wi].prefix); g_pool[wi].busy = false; nbusy--;
@@ -509,7 +513,7 @@ void Explore(const std::string & partName, const std::string & configArgs, const
          if (samples.size() < 3) samples.push_back("{\"config\": " + verif::JStr(configArgs) + ", \"choices\": " + verif::JStr(ChoicesToString(o.taken)) + ", \"status\": " + verif::JStr(o.status) + ", \"observation\": " + verif::JStr(o.observation.substr(0, 200)) + "}");
          int base = 0; bool consistent = o.taken.size() >= prefix.size();
          for (size_t j = 0; consistent && j < prefix.size(); j++) { if (o.taken[j] != prefix[j] || prefix[j] >= o.cost[j].size()) consistent = false; else base += o.cost[j][prefix[j]]; }
-         if (!consistent && o.status != "CRASH" && o.status != "HANG") { res.infra_errors.push_back(partName + ": replayed prefix diverged (" + ChoicesToString(prefix) + " vs " + ChoicesToString(o.taken) + ")"); continue; }
+         if (!consistent && o.status != "CRASH" && o.status != "HANG" && !warmFailed) { res.infra_errors.push_back(partName + ": replayed prefix diverged (" + ChoicesToString(prefix) + " vs " + ChoicesToString(o.taken) + ")"); continue; }
          if (base < 8) perBound[base]++;
          if (o.status == "INFRA") { res.infra_errors.push_back(partName + ": " + o.key + " " + o.msg + " choices=" + ChoicesToString(prefix)); continue; }
          if (o.status != "OK") {
@@ -536,6 +540,7 @@ void Explore(const std::string & partName, const std::string & configArgs, const
                }
             }
             if (o.status == "CRASH" || o.status == "HANG") continue;   // no trace to expand from
+            if (warmFailed) { if (!capped) { capped = true; cap = "the default schedule of this configuration already fails in a fresh process: nothing else explored"; } work.clear(); continue; }
          }
          for (size_t j = prefix.size(); j < o.nalt.size(); j++)
             for (int alt = 1; alt < (int)o.nalt[j]; alt++)
